@@ -231,7 +231,7 @@ pub fn gen_clock(rng: &mut Prng, cfg: &ClockCfg) -> (ClockSpec, Vec<(u32, u8)>) 
             CF::WrapU64 | CF::LongStuck => unreachable!(),
         }
     }
-    let spec = ClockSpec { readings, tail_key: rng.u64(), fork_skews: Vec::new() };
+    let spec = ClockSpec { readings, tail_key: rng.u64(), fork_skews: Vec::new(), freeze: None };
     (spec, marks)
 }
 
